@@ -490,6 +490,8 @@ def main(tier, seed):
     for ci, cn in enumerate(concs):
         for cls, label in (subs if (thorough or ci == 0) else subs[:1]):
             core.replay_graph_generic(g, Driver(cn, U, cls=cls, label=label), verdict, stats)
+    for cn in concs:
+        core.replay_walks(g, Driver(cn, U), verdict, stats, n_walks=3000 if thorough else 400, length=12, seed=seed)
     canary_graph(g, U)
     ntr, ln = (4000, 60) if thorough else (400, 40)
     traces = []
